@@ -367,12 +367,12 @@ Proof. unfold p10. split; [apply Qle_bool_iff | apply Qnot_le_lt; intro H; apply
 Lemma pow_bracket_5 : p10 698 <= (5 # 1) ^ 1000 /\ (5 # 1) ^ 1000 < p10 699.
 Proof. unfold p10. split; [apply Qle_bool_iff | apply Qnot_le_lt; intro H; apply Qle_bool_iff in H; revert H]; vm_compute; [reflexivity | discriminate]. Qed.
 
-(* refuted for |x| > 1: a stored component 5 with radius 20 (logarithms right to 1/1000) is printed "0.e0",
+(* refuted for |x| > 1 for the code before /repo commit 0b5aaff1: a stored component 5 with radius 20 (logarithms right to 1/1000) is printed "0.e0",
    and 5 is not within one unit (10^0) of 0 *)
 Lemma zero_branch_unit_refuted :
   exists (x rad lg lgabs : Q) (p : parsed),
     lg_within (rad / x) lg 1000 /\ lg_within x lgabs 1000 /\
-    outfloat_plan lg lgabs 64 53 = PZeroExp 0 /\
+    outfloat_plan_prefix lg lgabs 64 53 = PZeroExp 0 /\
     decimal_parse "0.e0" = Some p /\ parsed_unit p == p10 0 /\ close_b p x = false.
 Proof.
   exists (5 # 1), (20 # 1), (602 # 1000), (699 # 1000).
